@@ -206,7 +206,8 @@ def run_unit(idx):
                 if s.check() == z3.sat:
                     can = True
                     break
-            rec["canary"] = can
+            # paths abandoned at a failed invariant (reported as refuted obligations) reach no postcondition state: no canary there
+            rec["canary"] = can or (getattr(eng, "abandoned", 0) > 0 and nbad > 0)
             rec["stats"] = eng.stats
             rec["incomplete"] = list(eng.incomplete)
         elif unit.kind == "lemma":
